@@ -151,8 +151,19 @@ func (fr *Frame) execInstr(ins ssa.Instruction, pc string, st *State) string {
 					pc = fr.safety("nil", ins, pc, fmt.Sprintf("(not (= %s 0))", l.idx))
 				}
 			}
-			fr.set(x, x.Type(), vc.loadLoc(st, l))
+			loaded := vc.loadLoc(st, l)
+			fr.set(x, x.Type(), loaded)
 			pc = fr.assume(pc, vc.typeAssume(fr.vals[x][0], x.Type(), st))
+			if l.heap != "" && len(l.path) == 0 && l.local == "" && l.idx != "" && strings.HasPrefix(loaded, "(select "+l.heap+"@e0 ") {
+				// the entry heap is closed: a cell of an object that existed at entry, read before anything was
+				// written to that heap component, holds a reference to an object that existed at entry
+				if ta := vc.typeAssume(fr.vals[x][0], x.Type(), st); ta != "true" && strings.Contains(ta, "rootref") {
+					entry := strings.ReplaceAll(ta, " "+vc.stGet0(st, "$alloc")+")", " $alloc@0)")
+					if entry != ta || vc.stGet0(st, "$alloc") == "$alloc@0" {
+						pc = fr.assume(pc, fmt.Sprintf("(=> (< (rootref %s) $alloc@0) %s)", l.idx, entry))
+					}
+				}
+			}
 			if a, ok := x.X.(*ssa.Alloc); ok && fr.closureCell != nil {
 				if mc, ok := fr.closureCell[a]; ok {
 					fr.closures[x] = mc
@@ -776,8 +787,8 @@ func (fr *Frame) next(x *ssa.Next, pc *string, st *State) {
 	inDom, val := fr.mapDomVal(st, mt, m, k)
 	ks := d.sortOf(mt.Key())
 	// ok => k in dom, not visited; !ok => every key in dom visited
-	*pc = fr.assume(*pc, fmt.Sprintf("(and (=> %s (and %s (not (select %s %s)))) (=> (not %s) (forall ((kk %s)) (! (=> (and (not (= %s 0)) (select (select %s %s) kk)) (select %s kk)) :pattern ((select %s kk))))))",
-		okc, inDom, vis, k, okc, ks, m, vc.stGet(st, firstOf(d.mapHeaps(mt))), m, vis, vis))
+	*pc = fr.assume(*pc, fmt.Sprintf("(and (=> %s (and %s (not (select %s %s)))) (=> (not %s) (forall ((kk %s)) (! (=> (and (not (= %s 0)) (select (select %s %s) kk)) (select %s kk)) :pattern ((select %s kk)) :pattern ((select (select %s %s) kk))))))",
+		okc, inDom, vis, k, okc, ks, m, vc.stGet(st, firstOf(d.mapHeaps(mt))), m, vis, vis, vc.stGet(st, firstOf(d.mapHeaps(mt))), m))
 	v := vc.define(fr.prefix+x.Name()+".v", d.sortOf(mt.Elem()), val)
 	vc.stSet(st, key, ite(okc, fmt.Sprintf("(store %s %s true)", vis, k), vis))
 	fr.vals[x] = []string{okc, k, v}
